@@ -3,7 +3,7 @@ from fractions import Fraction
 
 from harness import coqio as cq
 from harness import thr_common as tc
-from harness.common import CONFIGS, F, enc, fl
+from harness.common import CONFIGS, F, enc, fl, pick_dtype
 
 ID = "C06"
 PROPS_FILE = "Props/C06.v"
@@ -61,7 +61,8 @@ def gen_case(rng, exact):
         pool = [Fraction(rng.randint(-3, 3)) for _ in range(3)]
         pos, neg = [rng.choice(pool) for _ in range(npos)], [rng.choice(pool) for _ in range(nneg)]
     return {"pos": [enc(x) for x in pos], "neg": [enc(x) for x in neg], "ep": ep, "en": en, "sc": sc, "ec": ec,
-            "exact": exact, "kind": kind, "a": enc(rng.choice([Fraction(1, 2), Fraction(2), Fraction(4)])),
+            "exact": exact, "kind": kind, "dtype": pick_dtype(rng, pos + neg),
+            "warmup": rng.choice([[], [], ["topr"], ["tonr", "tpr"], ["fnr"]]), "a": enc(rng.choice([Fraction(1, 2), Fraction(2), Fraction(4)])),
             "b": enc(Fraction(rng.randint(-8, 8), 2))}
 
 
@@ -74,16 +75,19 @@ def run_impl(case):
     import numpy as np
     from score_analysis import Scores
 
-    pos = np.array([fl(x) for x in case["pos"]], dtype=float)
-    neg = np.array([fl(x) for x in case["neg"]], dtype=float)
+    dt = np.dtype(case.get("dtype", "float64"))     # values exactly representable in the chosen dtype
+    pos = np.array([fl(x) for x in case["pos"]], dtype=float).astype(dt)
+    neg = np.array([fl(x) for x in case["neg"]], dtype=float).astype(dt)
     kw = dict(nb_easy_pos=case["ep"], nb_easy_neg=case["en"], score_class=case["sc"], equal_class=case["ec"])
     s = Scores(pos, neg, **kw)
+    for w in case.get("warmup", []):      # other queries made on the same object first
+        getattr(s, "threshold_at_" + w)(np.array([0.0, 0.4, 1.0]))
     t, e = s.eer()
     out = {"t": enc(float(t)), "e": enc(float(e)), "fpr": enc(float(s.fpr(t))), "fnr": enc(float(s.fnr(t))),
            "hard": [enc(float(s.hard_pos_ratio)), enc(float(s.hard_neg_ratio))]}
     if "a" in case:
         a, b = fl(case["a"]), fl(case["b"])
-        t2, e2 = Scores(a * pos + b, a * neg + b, **kw).eer()
+        t2, e2 = Scores(a * pos.astype(float) + b, a * neg.astype(float) + b, **kw).eer()
         out["aff"] = [enc(float(t2)), enc(float(e2))]
     return out
 
